@@ -131,7 +131,7 @@ func (r *round3) Finalize(chan<- *round.Message) (round.Session, error) {
 	}
 	verificationExponent, err := polynomial.Sum(exponents)
 	if err != nil {
-		panic(err)
+		return r, err
 	}
 	for k, v := range r.verificationShares {
 		r.verificationShares[k] = v.Add(verificationExponent.Evaluate(k.Scalar(r.Group())))
